@@ -177,3 +177,335 @@ func L2Order(levels []int) []int {
 	}
 	return order
 }
+
+// ---------------------------------------------------------------------------------------------
+// Explicit directional formatting (rules X1–X10 restricted to what the C08 generator produces:
+// LRE, RLE, LRO, RLO, PDF, LRI, RLI, FSI, PDI over the classes L, R, EN, WS; no overflow of the
+// directional status stack, which the generator keeps at depth <= a few levels).
+// ---------------------------------------------------------------------------------------------
+
+const (
+	BidiLRE BidiClass = iota + 4
+	BidiRLE
+	BidiLRO
+	BidiRLO
+	BidiPDF
+	BidiLRI
+	BidiRLI
+	BidiFSI
+	BidiPDI
+)
+
+// MiniBidiClassX is MiniBidiClass extended with the explicit formatting characters.
+func MiniBidiClassX(r rune) (BidiClass, bool) {
+	switch r {
+	case 0x202A:
+		return BidiLRE, true
+	case 0x202B:
+		return BidiRLE, true
+	case 0x202C:
+		return BidiPDF, true
+	case 0x202D:
+		return BidiLRO, true
+	case 0x202E:
+		return BidiRLO, true
+	case 0x2066:
+		return BidiLRI, true
+	case 0x2067:
+		return BidiRLI, true
+	case 0x2068:
+		return BidiFSI, true
+	case 0x2069:
+		return BidiPDI, true
+	}
+	return MiniBidiClass(r)
+}
+
+// IsBidiFormat reports whether c is an explicit formatting character.
+func IsBidiFormat(c BidiClass) bool { return c >= BidiLRE && c <= BidiPDI }
+
+func removedByX9(c BidiClass) bool { return c >= BidiLRE && c <= BidiPDF }
+func isIsolateInit(c BidiClass) bool {
+	return c == BidiLRI || c == BidiRLI || c == BidiFSI
+}
+
+// matchingPDI returns, for every isolate initiator, the index of its matching PDI (BD9), -1 when
+// there is none; and for every PDI the index of its initiator, -1 when unmatched.
+func matchingPDI(classes []BidiClass) (match []int) {
+	match = make([]int, len(classes))
+	for i := range match {
+		match[i] = -1
+	}
+	var stack []int
+	for i, c := range classes {
+		switch {
+		case isIsolateInit(c):
+			stack = append(stack, i)
+		case c == BidiPDI:
+			if n := len(stack); n > 0 {
+				match[stack[n-1]] = i
+				match[i] = stack[n-1]
+				stack = stack[:n-1]
+			}
+		}
+	}
+	return match
+}
+
+// firstStrongLevel applies P2/P3 to classes[from:to]: the level (0/1) of the first character of
+// class L or R that is not inside an isolate; def when there is none.
+func firstStrongLevel(classes []BidiClass, match []int, from, to, def int) int {
+	for i := from; i < to; i++ {
+		switch c := classes[i]; {
+		case c == BidiL:
+			return 0
+		case c == BidiR:
+			return 1
+		case isIsolateInit(c):
+			if match[i] == -1 {
+				return def // P2: the rest of the paragraph is skipped
+			}
+			i = match[i]
+		}
+	}
+	return def
+}
+
+// MiniParagraphLevel applies P2/P3 (what an implementation does when no paragraph level is
+// imposed): 1 when the first strong character outside isolates is R, else 0.
+func MiniParagraphLevel(classes []BidiClass) int {
+	return firstStrongLevel(classes, matchingPDI(classes), 0, len(classes), 0)
+}
+
+// MiniBidiLevelsX resolves the embedding levels of a paragraph over the classes L, R, EN, WS and
+// the explicit formatting characters, at the given paragraph level. Characters removed by X9
+// (embedding/override initiators and PDF) get the level of the preceding character (the paragraph
+// level at the start), as the reference implementation does for reporting; with l1AtEnd the
+// trailing whitespace and formatting characters of the paragraph are reset to the paragraph level.
+func MiniBidiLevelsX(classes []BidiClass, paraLevel int, l1AtEnd bool) []int {
+	n := len(classes)
+	match := matchingPDI(classes)
+	type entry struct {
+		level    int
+		override BidiClass // BidiWS = neutral, BidiL or BidiR
+		isolate  bool
+	}
+	stack := []entry{{paraLevel, BidiWS, false}}
+	levels := make([]int, n)
+	types := make([]BidiClass, n) // class after X6 overrides; FSI/LRI/RLI/PDI stay themselves
+	nextOdd := func(l int) int { return l + 1 + l%2 }
+	nextEven := func(l int) int { return l + 2 - l%2 }
+	validIsolates := 0
+	applyOverride := func(i int, c BidiClass) {
+		types[i] = c
+		if o := stack[len(stack)-1].override; o != BidiWS {
+			types[i] = o
+		}
+	}
+	for i, c := range classes {
+		top := stack[len(stack)-1]
+		switch c {
+		case BidiRLE:
+			stack = append(stack, entry{nextOdd(top.level), BidiWS, false})
+			types[i] = c
+		case BidiLRE:
+			stack = append(stack, entry{nextEven(top.level), BidiWS, false})
+			types[i] = c
+		case BidiRLO:
+			stack = append(stack, entry{nextOdd(top.level), BidiR, false})
+			types[i] = c
+		case BidiLRO:
+			stack = append(stack, entry{nextEven(top.level), BidiL, false})
+			types[i] = c
+		case BidiRLI, BidiLRI, BidiFSI:
+			levels[i] = top.level
+			applyOverride(i, BidiWS) // X5a–c: an isolate initiator is a neutral, subject to the override
+			rtl := c == BidiRLI
+			if c == BidiFSI {
+				end := n
+				if match[i] != -1 {
+					end = match[i]
+				}
+				rtl = firstStrongLevel(classes, match, i+1, end, 0) == 1
+			}
+			if rtl {
+				stack = append(stack, entry{nextOdd(top.level), BidiWS, true})
+			} else {
+				stack = append(stack, entry{nextEven(top.level), BidiWS, true})
+			}
+			validIsolates++
+		case BidiPDI:
+			if match[i] != -1 && validIsolates > 0 {
+				for !stack[len(stack)-1].isolate {
+					stack = stack[:len(stack)-1]
+				}
+				stack = stack[:len(stack)-1]
+				validIsolates--
+			}
+			levels[i] = stack[len(stack)-1].level
+			applyOverride(i, BidiWS)
+		case BidiPDF:
+			types[i] = c
+			if !top.isolate && len(stack) >= 2 {
+				stack = stack[:len(stack)-1]
+			}
+		default:
+			levels[i] = top.level
+			applyOverride(i, c)
+		}
+	}
+
+	// emb keeps the explicit embedding levels (X1–X8); levels receives the resolved ones
+	emb := append([]int(nil), levels...)
+
+	// X9/X10: level runs over the characters that are not removed, chained into isolating run
+	// sequences through isolate initiators and their matching PDIs.
+	var kept []int
+	for i, c := range classes {
+		if !removedByX9(c) {
+			kept = append(kept, i)
+		}
+	}
+	var runs [][]int // level runs, as lists of indices
+	for k := 0; k < len(kept); {
+		j := k
+		for j < len(kept) && emb[kept[j]] == emb[kept[k]] {
+			j++
+		}
+		runs = append(runs, kept[k:j])
+		k = j
+	}
+	runStartingAt := map[int]int{}
+	for ri, r := range runs {
+		runStartingAt[r[0]] = ri
+	}
+	dirOfLevel := func(l int) BidiClass {
+		if l%2 == 1 {
+			return BidiR
+		}
+		return BidiL
+	}
+	posInKept := map[int]int{}
+	for k, i := range kept {
+		posInKept[i] = k
+	}
+	for _, r := range runs {
+		first := r[0]
+		if classes[first] == BidiPDI && match[first] != -1 {
+			continue // continues the sequence of its initiator
+		}
+		seq := append([]int(nil), r...)
+		for {
+			last := seq[len(seq)-1]
+			if !isIsolateInit(classes[last]) || match[last] == -1 {
+				break
+			}
+			nri, ok := runStartingAt[match[last]]
+			if !ok {
+				break
+			}
+			seq = append(seq, runs[nri]...)
+		}
+		lvl := emb[seq[0]]
+		// sos / eos
+		before, after := paraLevel, paraLevel
+		if k := posInKept[seq[0]]; k > 0 {
+			before = emb[kept[k-1]]
+		}
+		last := seq[len(seq)-1]
+		if !(isIsolateInit(classes[last]) && match[last] == -1) {
+			if k := posInKept[last]; k+1 < len(kept) {
+				after = emb[kept[k+1]]
+			}
+		}
+		sos, eos := dirOfLevel(max(lvl, before)), dirOfLevel(max(lvl, after))
+		embDir := dirOfLevel(lvl)
+
+		t := make([]BidiClass, len(seq))
+		for k, i := range seq {
+			t[k] = types[i]
+			if isIsolateInit(t[k]) || t[k] == BidiPDI {
+				t[k] = BidiWS // neutral isolate formatting character
+			}
+		}
+		// W7
+		w := append([]BidiClass(nil), t...)
+		for k := range t {
+			if t[k] != BidiEN {
+				continue
+			}
+			strong := sos
+			for j := k - 1; j >= 0; j-- {
+				if t[j] == BidiL || t[j] == BidiR {
+					strong = t[j]
+					break
+				}
+			}
+			if strong == BidiL {
+				w[k] = BidiL
+			}
+		}
+		// N1 / N2
+		asStrong := func(c BidiClass) BidiClass {
+			if c == BidiEN {
+				return BidiR
+			}
+			return c
+		}
+		res := append([]BidiClass(nil), w...)
+		for k := 0; k < len(w); {
+			if w[k] != BidiWS {
+				k++
+				continue
+			}
+			j := k
+			for j < len(w) && w[j] == BidiWS {
+				j++
+			}
+			lead, trail := sos, eos
+			if k > 0 {
+				lead = asStrong(w[k-1])
+			}
+			if j < len(w) {
+				trail = asStrong(w[j])
+			}
+			d := embDir
+			if lead == trail {
+				d = lead
+			}
+			for x := k; x < j; x++ {
+				res[x] = d
+			}
+			k = j
+		}
+		// I1 / I2
+		for k, i := range seq {
+			switch {
+			case lvl%2 == 0 && res[k] == BidiR:
+				levels[i] = lvl + 1
+			case lvl%2 == 0 && res[k] == BidiEN:
+				levels[i] = lvl + 2
+			case lvl%2 == 1 && (res[k] == BidiL || res[k] == BidiEN):
+				levels[i] = lvl + 1
+			}
+		}
+	}
+
+	// characters removed by X9: level of the preceding character
+	for i, c := range classes {
+		if removedByX9(c) {
+			if i == 0 {
+				levels[i] = paraLevel
+			} else {
+				levels[i] = levels[i-1]
+			}
+		}
+	}
+	// L1 at the end of the paragraph: whitespace and formatting characters
+	if l1AtEnd {
+		for i := n - 1; i >= 0 && (classes[i] == BidiWS || IsBidiFormat(classes[i])); i-- {
+			levels[i] = paraLevel
+		}
+	}
+	return levels
+}
